@@ -33,6 +33,7 @@ type Rand struct {
 	FailAt   int
 	FailMode int // 0 error with no data, 1 short read then error, 2 io.EOF, 3 (0,nil) once then error
 	Failed   int // how many reads failed
+	FailFor  int // when > 0, only this many reads fail and the source recovers by itself
 	// Override, when non-nil, supplies the bytes for the read with that index
 	// (used to force instance-tag draws); missing indices fall back to the DRBG.
 	Override map[int][]byte
@@ -71,7 +72,7 @@ func (r *Rand) Read(p []byte) (int, error) {
 	}
 	i := r.idx
 	r.idx++
-	if r.FailAt >= 0 && i >= r.FailAt {
+	if r.FailAt >= 0 && i >= r.FailAt && (r.FailFor <= 0 || i < r.FailAt+r.FailFor) {
 		r.Failed++
 		switch r.FailMode {
 		case 1:
